@@ -1074,6 +1074,9 @@ func c07RaceScenarios(tier string) []scenario {
 	}
 	add(c19Scenarios(tier), func(n string) bool { return strings.HasPrefix(n, "pool-none/") || strings.HasPrefix(n, "pool-valid/") })
 	add(c07Scenarios(tier), func(n string) bool { return n == "conc-CloseNow/client" || n == "wconc/client" })
+	add(c07StickyScenarios(tier), func(n string) bool {
+		return n == "reread-close/client+flate" || n == "read-close/client+flate" || n == "write-close/client+flate"
+	})
 	return out
 }
 
